@@ -21,7 +21,7 @@ def run(ctx):
     scs = nsplane.family_alias(rnd, ctx.tier)
     scs += nsplane.family_mapping(rnd, "quick")[::7] if ctx.tier == "quick" else nsplane.family_mapping(rnd, "thorough")[::2]
     ra = nsplane.family_alias_random(rnd, 60 if ctx.tier == "quick" else 1200)
-    for sc in ra[len(ra) // 3:]:
+    for sc in ra[min(len(ra) // 3, 150):]:
         sc["nomodel"] = True              # Layer A explores a third of them exhaustively; all are run and judged
     scs += ra
     if ctx.tier == "thorough":
